@@ -64,6 +64,13 @@ func workerMain(args []string) int {
 			c.Skip[s] = true
 		}
 	}
+	c.Finish = func() {
+		r.Done = true
+		if *resPath != "" {
+			r.Write(*resPath)
+		}
+		os.Exit(0)
+	}
 	// watchdog: a library call (or a library goroutine the harness waits for) that computes forever
 	go spinWatchdog(r, j, resPath)
 	p.Run(c)
